@@ -128,6 +128,9 @@ class SRat:
     def __repr__(s):
         return "SRat(%s)" % s.e
 
+    def __format__(s, spec):
+        return "<sym>"
+
 
 def truediv(a, b):
     ra, rb = _real(a), _real(b)
